@@ -45,6 +45,8 @@ def gen_irset(rnd, density=None, toggle=None, sep=None):
                 waves.append({"Key": k, "Para": "S", "HexCode": "CD" * rnd.randrange(1, 40)})
     rnd.shuffle(waves)
     rid = rnd.choice(SPECIAL_SWING_COMMAND_REMOTE_IDS) if sep else "ELEC" + str(rnd.randrange(1000, 9999))
+    while not sep and rid in SPECIAL_SWING_COMMAND_REMOTE_IDS:
+        rid = "ELEC" + str(rnd.randrange(1000, 9999))      # an ordinary id must not collide with a separate-swing id
     return {"IRSetID": rid, "OnOffType": 1 if toggle else 0, "IRWaveList": waves}
 
 
